@@ -926,6 +926,92 @@ func listingHoldsRepositoryTrial(r *vh.Run, i int) {
 	}
 }
 
+// sessionPressureTrial: other clients keep opening upload sessions in a repository whose session bound is small, while
+// one client pushes artifacts to a subject and deletes them again.  The registry writes manifests and referrers answers
+// itself; whatever housekeeping it does for its clients' sessions, an acknowledged delete means the artifact is no
+// longer listed, an acknowledged push means it is (until deleted), and no push of a complete manifest fails with a 5xx.
+func sessionPressureTrial(r *vh.Run, i int) {
+	kind := []vh.StoreKind{vh.Dir, vh.Mem}[i%2]
+	root := ""
+	if kind == vh.Dir {
+		root = r.TempDir("c11p")
+		defer vh.RemoveAll(root)
+	}
+	c := vh.Conf(kind, root, vh.Neutral)
+	c.Storage.GC.RepoUploadMax = []int{1, 2, 3}[(i/2)%3]
+	srv := vh.New(c)
+	defer srv.Close()
+	wit := map[string]any{"trial": i, "store": kind.String(), "repo_upload_max": c.Storage.GC.RepoUploadMax}
+	cfg := []byte(fmt.Sprintf(`{"p":%d}`, i))
+	cb := &vh.Blob{Name: "cfg", B: cfg, D: vh.DigestOf("sha256", cfg)}
+	vh.Do(srv, vh.Req{Method: "POST", URL: "/v2/p/blobs/uploads/?digest=" + cb.D, Body: cfg})
+	subj := vh.MkImage("S", "sha256", vh.MTImage, cb, vh.MTConfig, nil, "", "", map[string]string{"n": "S", "i": fmt.Sprint(i)})
+	if st := vh.Do(srv, vh.Req{Method: "PUT", URL: "/v2/p/manifests/s", H: map[string]string{"Content-Type": subj.MT}, Body: subj.Raw}).Status; st != 201 {
+		r.Inconclusive("sessionPressureTrial: setup refused")
+		return
+	}
+	stop := make(chan struct{})
+	var wg sync.WaitGroup
+	for u := 0; u < 3; u++ {
+		wg.Add(1)
+		go func() {
+			defer wg.Done()
+			for {
+				select {
+				case <-stop:
+					return
+				default:
+				}
+				vh.Do(srv, vh.Req{Method: "POST", URL: "/v2/p/blobs/uploads/"})
+			}
+		}()
+	}
+	deleted, kept := map[string]bool{}, map[string]bool{}
+	var fivexx []string
+	for n := 0; n < 60; n++ {
+		a := vh.MkImage(fmt.Sprintf("a%d", n), "sha256", vh.MTImage, cb, vh.MTConfig, nil, subj.D, "application/x.a", map[string]string{"n": fmt.Sprint(n), "i": fmt.Sprint(i)})
+		ps := vh.Do(srv, vh.Req{Method: "PUT", URL: "/v2/p/manifests/" + a.D, H: map[string]string{"Content-Type": a.MT}, Body: a.Raw}).Status
+		if ps >= 500 {
+			fivexx = append(fivexx, fmt.Sprintf("PUT artifact %d = %d", n, ps))
+			continue
+		}
+		if ps != 201 {
+			continue
+		}
+		if n%3 == 2 {
+			kept[a.D] = true
+			continue
+		}
+		if ds := vh.Do(srv, vh.Req{Method: "DELETE", URL: "/v2/p/manifests/" + a.D}).Status; ds == 202 {
+			deleted[a.D] = true
+		} else if ds >= 500 {
+			fivexx = append(fivexx, fmt.Sprintf("DELETE artifact %d = %d", n, ds))
+		}
+	}
+	close(stop)
+	wg.Wait()
+	r.Count("session_pressure_trials", 1)
+	r.Count("session_pressure_acknowledged_deletes", len(deleted))
+	ls := vh.Do(srv, vh.Req{Method: "GET", URL: "/v2/p/referrers/" + subj.D})
+	for d := range deleted {
+		if strings.Contains(string(ls.Body), d) {
+			wit["five_xx"] = fivexx
+			r.Violation("acknowledged-delete-still-listed", fmt.Sprintf("%s store, at most %d upload sessions per repository, three clients opening sessions: the delete of artifact %s was acknowledged with 202 (GET by digest: %d), at quiescence the referrers of its subject still list it", kind, c.Storage.GC.RepoUploadMax, vh.Short(d), vh.Do(srv, vh.Req{Method: "HEAD", URL: "/v2/p/manifests/" + d, H: map[string]string{"Accept": vh.AcceptAll}}).Status), wit)
+			return
+		}
+	}
+	for d := range kept {
+		if !strings.Contains(string(ls.Body), d) {
+			r.Violation("quiescent:artifact-not-listed", fmt.Sprintf("%s store under session pressure: artifact %s, pushed with 201 and never deleted, is missing from the referrers of its subject", kind, vh.Short(d)), wit)
+			return
+		}
+	}
+	if len(fivexx) > 0 {
+		wit["five_xx"] = fivexx
+		r.Violation("complete-push-failed-under-session-pressure", fmt.Sprintf("%s store, at most %d upload sessions per repository: %d pushes / deletes of complete artifacts were answered with a 5xx while other clients opened upload sessions (first: %s) - the registry evicted the session of its own write", kind, c.Storage.GC.RepoUploadMax, len(fivexx), fivexx[0]), wit)
+	}
+}
+
 func main() {
 	r := vh.Start()
 	if strings.HasPrefix(r.Variant(), "vsync") {
@@ -937,6 +1023,9 @@ func main() {
 		nx := r.N(8, 80)
 		vh.Parallel(nx, 4, func(i int) { expiryHolderTrial(r, i) })
 		r.Require("expiry_holder_trials", int64(nx/2))
+		nsp := r.N(6, 60)
+		vh.Parallel(nsp, 3, func(i int) { sessionPressureTrial(r, i) })
+		r.Require("session_pressure_trials", int64(nsp))
 		nl := r.N(9, 90)
 		for i := 0; i < nl; i++ { // one at a time: the gate is process-wide
 			listingHoldsRepositoryTrial(r, i)
